@@ -48,6 +48,8 @@ def regen_clisrc():
     clirules.generate()         # CmGen/CliRules.lean: process_nodes_recursive — rule selection, classification, write-back, recursion (CmProps/C08rules.lean)
     cliresolve.generate()       # CmGen/CliResolve.lean: resolve_variable, its call sites and the pre-pass of main (CmProps/C08resolve.lean)
     climain.generate()          # CmGen/CliMain.lean: the per-file loop of main (uses CliResolve's pre-pass image; CmProps/C18main.lean)
+    from translate import defaults
+    defaults.generate()         # CmGen/Defaults.lean: the click options of main and their defaults (CmProps/C08defaults.lean)
     clisrc.generate()           # CmGen/CliSrc.lean: path handling, target ratio, dispatch literals of cli/main.py as they read now (CmProps/C08src.lean)
 
 
